@@ -163,7 +163,7 @@ int main(int argc,char **argv){
       else if(!strncmp(tk,"rf:",3)||!strncmp(tk,"ri:",3)){
         float **p=NULL; int bs=-1; long want=atol(tk+3);
         if(tk[1]=='f'){ rc=ov_read_float(&vf,&p,(int)want,&bs); }
-        else{ static char ib[65536]; rc=ov_read(&vf,ib,(int)(want>65536?65536:want),0,2,1,&bs); if(rc>0){ int ch=ov_info(&vf,-1)->channels; rc/=2*ch; } p=NULL; }
+        else{ static char ib[65536]; rc=ov_read(&vf,ib,(int)(want>65536?65536:want),0,2,1,&bs); if(rc>0){ int ch=ov_info(&vf,bs)->channels; if(rc%(2*ch))printf("prop intframes FAIL bytes=%ld channels=%d link=%d\n",rc,ch,bs); rc/=2*ch; } p=NULL; }
         cnt=rc; lk=bs;
         if(rc==OV_HOLE||rc==OV_EBADLINK)holes++;
         if(rc>0){
